@@ -47,3 +47,16 @@ func VerifInflight(s *Server, id string) []uint32 {
 	}
 	return out
 }
+
+// VerifSubscribe2Bytes: one SUBSCRIBE carrying two filters (the first may be one the broker refuses)
+func VerifSubscribe2Bytes(id uint16, f1, f2 string, qos byte, ver byte) []byte {
+	b := vU16b(id)
+	if ver == 5 {
+		b = append(b, 0)
+	}
+	b = append(b, vStrb(f1)...)
+	b = append(b, qos)
+	b = append(b, vStrb(f2)...)
+	b = append(b, qos)
+	return append([]byte{packets.Subscribe<<4 | 2, byte(len(b))}, b...)
+}
